@@ -11,10 +11,11 @@
 (* object runs one call at a time (Sequence.lock).  Restart = DB.Close +    *)
 (* Open: all objects are gone, the stored lease stays.                      *)
 (*                                                                         *)
-(* AssignEarly = TRUE models the pinned tree: updateLease stores seq.next   *)
+(* AssignEarly = TRUE models the tree before fix 81a452d: it stored seq.next *)
 (* and seq.leased inside the Update closure, i.e. before the commit, and    *)
-(* keeps them when the commit fails.  AssignEarly = FALSE is the intended   *)
-(* protocol (the object changes only after the transaction committed).     *)
+(* kept them when the commit failed.  AssignEarly = FALSE is the intended   *)
+(* protocol and the code since the fix (the object changes only after the   *)
+(* transaction committed).                                                  *)
 (***************************************************************************)
 EXTENDS Integers, FiniteSets, TLC
 
